@@ -137,8 +137,10 @@ try:
             else:
                 feats = self.computer(signal)
             del signal
-            for postprocessor in self.postprocessors:
-                feats = postprocessor(feats)
+            if feats.shape[0]:
+                # nothing to post-process when the utterance is too short for a frame
+                for postprocessor in self.postprocessors:
+                    feats = postprocessor(feats)
             return utt_id, feats.float()
 
 except ImportError:
